@@ -375,7 +375,7 @@ func cmdCheck(args []string) int {
 			"package_load_s":           round3(loadS),
 			"vacuity_checks":           covers,
 			"havoc_callees":            sortedKeys(havoc),
-			"abstractions":             sortedKeys(notes),
+			"abstractions":             sortedKeys(withRebindNotes(notes, funcs)),
 			"unsupported":              unsupp,
 			"known_findings_hit":       knownHits,
 			"undecided":                undecided,
@@ -528,4 +528,30 @@ func loadFloor(prop string) (int, int) {
 		return f.Obligations, f.Functions
 	}
 	return 1, 1
+}
+
+// withRebindNotes adds one note per function of this check whose clauses were read with renamed locals (rebind.go).
+func withRebindNotes(notes map[string]bool, funcs []string) map[string]bool {
+	for ck, m := range theRebinder.maps {
+		if len(m) == 0 {
+			continue
+		}
+		i := strings.Index(ck, "\x00")
+		if i < 0 {
+			continue
+		}
+		fn := ck[i+1:] // "<recv>.<name>"
+		name := fn[strings.Index(fn, ".")+1:]
+		for _, f := range funcs {
+			if strings.Contains(f, name) {
+				var parts []string
+				for a, b := range m {
+					parts = append(parts, a+"->"+b)
+				}
+				sort.Strings(parts)
+				notes["clauses of "+f+" read with locals renamed since HEAD ("+strings.Join(parts, ", ")+")"] = true
+			}
+		}
+	}
+	return notes
 }
